@@ -7,7 +7,7 @@ Import ListNotations.
 Require Import EV.model.Value EV.model.Frame EV.model.CodecSpec EV.model.Utf8 EV.model.Decimal EV.model.Ser.
 Open Scope Z_scope.
 
-Definition MAXALLOC := 1048576.   (* [None]*n above this is reported as MemoryDemand, not built *)
+Definition MAXALLOC := 1048576.   (* the executable instance reports [None]*n above this as MemoryDemand instead of building it *)
 
 Record strconfig := { py2str_as_py3str : bool; py3str_as_py2str : bool }.
 
@@ -65,47 +65,77 @@ Definition collection (mk : list value -> option value) (bs : bytes) (st : stack
       match mk items with Some v => Cont r (v :: st') | None => Fail LoadError end
   end.
 
+Inductive opk := KNone | KTrue | KFalse | KInt | KLongint | KFloat | KComplex | KBytes | KPy3 | KPy2 | KUnicode
+  | KNewlist | KNewdict | KSetitem | KTuple | KSet | KFrozenset | KStop | KChannel | KBad.
+
+(* num2func: which loader an opcode byte selects (LONG and LONGLONG are aliases) *)
+Definition classify (op : Z) : opk :=
+  if op =? OP_NONE then KNone else
+  if op =? OP_TRUE then KTrue else
+  if op =? OP_FALSE then KFalse else
+  if (op =? OP_INT) || (op =? OP_LONG) then KInt else
+  if (op =? OP_LONGINT) || (op =? OP_LONGLONG) then KLongint else
+  if op =? OP_FLOAT then KFloat else
+  if op =? OP_COMPLEX then KComplex else
+  if op =? OP_BYTES then KBytes else
+  if op =? OP_PY3STRING then KPy3 else
+  if op =? OP_PY2STRING then KPy2 else
+  if op =? OP_UNICODE then KUnicode else
+  if op =? OP_NEWLIST then KNewlist else
+  if op =? OP_NEWDICT then KNewdict else
+  if op =? OP_SETITEM then KSetitem else
+  if op =? OP_BUILDTUPLE then KTuple else
+  if op =? OP_SET then KSet else
+  if op =? OP_FROZENSET then KFrozenset else
+  if op =? OP_STOP then KStop else
+  if op =? OP_CHANNEL then KChannel else KBad.
+
+Section Alloc.
+(* allocation bound of NEWLIST: the theorems hold for every bound; INT_MAX means no bound *)
+Variable ma : Z.
+
+Definition step_k (sc : strconfig) (factory : bool) (k : opk) (bs : bytes) (st : stack) : stepres :=
+  match k with
+  | KNone => Cont bs (VNone :: st)
+  | KTrue => Cont bs (VBool true :: st)
+  | KFalse => Cont bs (VBool false :: st)
+  | KInt => match read_int4 bs with Ok (i, r) => Cont r (VInt i :: st) | Err e => Fail e end
+  | KLongint =>
+      match read_bstr bs with
+      | Ok (s, r) => match pyint s with Some z => Cont r (VInt z :: st) | None => Fail LoadError end
+      | Err e => Fail e end
+  | KFloat => match read 8 bs with Ok (d, r) => Cont r (VFloat (de64 d) :: st) | Err e => Fail e end
+  | KComplex =>
+      match read 16 bs with Ok (d, r) => Cont r (VComplex (de64 (firstn 8 d)) (de64 (skipn 8 d)) :: st) | Err e => Fail e end
+  | KBytes => match read_bstr bs with Ok (s, r) => Cont r (VBytes s :: st) | Err e => Fail e end
+  | KPy3 =>
+      match read_bstr bs with
+      | Ok (s, r) => if py3str_as_py2str sc then Cont r (VBytes s :: st) else push_str (utf8_dec s) r st
+      | Err e => Fail e end
+  | KPy2 =>
+      match read_bstr bs with
+      | Ok (s, r) => if py2str_as_py3str sc then Cont r (VStr s :: st) (* latin-1 *) else Cont r (VBytes s :: st)
+      | Err e => Fail e end
+  | KUnicode => match read_bstr bs with Ok (s, r) => push_str (utf8_dec s) r st | Err e => Fail e end
+  | KNewlist =>
+      match read_int4 bs with
+      | Ok (n, r) => if ma <? n then Fail MemoryDemand else Cont r (VList (repeat VNone (Z.to_nat n)) :: st)
+      | Err e => Fail e end
+  | KNewdict => Cont bs (VDict [] :: st)
+  | KSetitem => setitem st bs
+  | KTuple => collection (fun l => Some (VTuple l)) bs st
+  | KSet => collection (fun l => if forallb hashable l then Some (VSet (set_of_list l)) else None) bs st
+  | KFrozenset => collection (fun l => if forallb hashable l then Some (VFrozenset (set_of_list l)) else None) bs st
+  | KStop => Stop bs st
+  | KChannel =>
+      match read_int4 bs with
+      | Ok (i, r) => if factory then Cont r (VChannel i :: st) else Fail LoadError
+      | Err e => Fail e end
+  | KBad => Fail LoadError
+  end.
+
 Definition step (sc : strconfig) (factory : bool) (op : Z) (bs : bytes) (st : stack) : stepres :=
-  if op =? OP_NONE then Cont bs (VNone :: st) else
-  if op =? OP_TRUE then Cont bs (VBool true :: st) else
-  if op =? OP_FALSE then Cont bs (VBool false :: st) else
-  if (op =? OP_INT) || (op =? OP_LONG) then
-    match read_int4 bs with Ok (i, r) => Cont r (VInt i :: st) | Err e => Fail e end else
-  if (op =? OP_LONGINT) || (op =? OP_LONGLONG) then
-    match read_bstr bs with
-    | Ok (s, r) => match pyint s with Some z => Cont r (VInt z :: st) | None => Fail LoadError end
-    | Err e => Fail e end else
-  if op =? OP_FLOAT then
-    match read 8 bs with Ok (d, r) => Cont r (VFloat (de64 d) :: st) | Err e => Fail e end else
-  if op =? OP_COMPLEX then
-    match read 16 bs with Ok (d, r) => Cont r (VComplex (de64 (firstn 8 d)) (de64 (skipn 8 d)) :: st) | Err e => Fail e end else
-  if op =? OP_BYTES then
-    match read_bstr bs with Ok (s, r) => Cont r (VBytes s :: st) | Err e => Fail e end else
-  if op =? OP_PY3STRING then
-    match read_bstr bs with
-    | Ok (s, r) => if py3str_as_py2str sc then Cont r (VBytes s :: st) else push_str (utf8_dec s) r st
-    | Err e => Fail e end else
-  if op =? OP_PY2STRING then
-    match read_bstr bs with
-    | Ok (s, r) => if py2str_as_py3str sc then Cont r (VStr s :: st) (* latin-1 *) else Cont r (VBytes s :: st)
-    | Err e => Fail e end else
-  if op =? OP_UNICODE then
-    match read_bstr bs with Ok (s, r) => push_str (utf8_dec s) r st | Err e => Fail e end else
-  if op =? OP_NEWLIST then
-    match read_int4 bs with
-    | Ok (n, r) => if MAXALLOC <? n then Fail MemoryDemand else Cont r (VList (repeat VNone (Z.to_nat n)) :: st)
-    | Err e => Fail e end else
-  if op =? OP_NEWDICT then Cont bs (VDict [] :: st) else
-  if op =? OP_SETITEM then setitem st bs else
-  if op =? OP_BUILDTUPLE then collection (fun l => Some (VTuple l)) bs st else
-  if op =? OP_SET then collection (fun l => if forallb hashable l then Some (VSet (set_of_list l)) else None) bs st else
-  if op =? OP_FROZENSET then collection (fun l => if forallb hashable l then Some (VFrozenset (set_of_list l)) else None) bs st else
-  if op =? OP_STOP then Stop bs st else
-  if op =? OP_CHANNEL then
-    match read_int4 bs with
-    | Ok (i, r) => if factory then Cont r (VChannel i :: st) else Fail LoadError
-    | Err e => Fail e end else
-  Fail LoadError.
+  step_k sc factory (classify op) bs st.
 
 Fixpoint run (sc : strconfig) (factory : bool) (fuel : nat) (bs : bytes) (st : stack) : res (value * bytes) :=
   match fuel with
@@ -133,3 +163,4 @@ Definition loads_r (sc : strconfig) (bs : bytes) : res (value * bytes) :=
   end.
 Definition loads (sc : strconfig) (bs : bytes) : res value :=
   match loads_r sc bs with Ok (v, _) => Ok v | Err e => Err e end.
+End Alloc.
